@@ -621,7 +621,9 @@ impl CardInner {
                 }
             }
         }
-        self.last_write_failed = code != 0x05;
+        // only a "write error" response is (sometimes) also visible in the card status; a block
+        // rejected for its CRC, or not answered properly at all, leaves the status clean
+        self.last_write_failed = code == 0x0D && (n % 2 == 1 || !self.faults.iter().any(|f| matches!(f, Fault::RejectWrite { .. })));
         if code == 0x05 {
             if (self.write_addr as u64) < self.blocks {
                 let mut b = [0u8; 512];
